@@ -32,7 +32,7 @@ EXHAUSTIVE = {"quick": False, "thorough": False}
 SCOPE = {"quick": "701 datasets (n<=3,m<=2) x 12 schemes + 2000 sampled datasets over R(4) (m<=3) + 12000 sampled "
                   "(dataset n<=5 m<=4, scheme) pairs with 150 grid schemes; all optima by enumeration; consistent_with: "
                   "all (P,c) pairs over <=4 elements, 2 name kinds, + mismatched universes",
-         "thorough": "701 datasets (n<=3,m<=2) x 31 schemes + 20000 sampled datasets over R(4) (m<=3) + 120000 sampled "
+         "thorough": "701 datasets (n<=3,m<=2) x 26 schemes + 20000 sampled datasets over R(4) (m<=3) + 120000 sampled "
                      "(dataset n<=5 m<=4, scheme) pairs with 400 grid schemes; consistent_with as quick"}
 CHUNK = 16
 TIMEOUT = 120
